@@ -387,7 +387,7 @@ def main(replay=None):
             run_specs(ck, h, [s], mdl_of)
         elif kind == "integrator":
             mo = core.run_model([rp["model_case"]]); ho = h.run([rp["harness_case"]])
-            judge_integ(ck, [(rp["model_case"], rp["harness_case"], rp.get("what", {}))], mo, ho)
+            judge_integ(ck, [(rp["model_case"], rp["harness_case"], rp.get("what", {}))], mo, ho, h)
         elif kind == "structure":
             m = rp["model"]; m["meshes"] = [(n, [tuple(v) for v in vs], [tuple(t) for t in ts]) for n, vs, ts in m["meshes"]]
             models.write_model(m, os.path.join(h.wd, "m%d" % rp["mid"]))
@@ -414,7 +414,7 @@ def main(replay=None):
                 a, b = l.split(" ;; "); corpus.append((a, b, dict(corpus=True)))
     ic = corpus + ic
     mo = core.run_model([c[0] for c in ic]); ho = h.run([c[1] for c in ic])
-    istats = judge_integ(ck, ic, mo, ho)
+    istats = judge_integ(ck, ic, mo, ho, h)
 
     # ---- S + M on generated head models
     nmodels = 6 if quick else 20
@@ -464,8 +464,17 @@ def main(replay=None):
                        "Vector index assertions are modelled by a pre-check of all indices the loops touch (dom_ok), equivalent in outcome"]
     return ck.finish()
 
-def judge_integ(ck, ic, mo, ho):
-    st = dict(cases=len(ic), bitwise=0, rounding=0, refined=0, nontrivial=0, by_depth={})
+def scaled_integ_line(hl, lam):
+    """the same integrator case with the integrand multiplied by lam (kind 0: all coefficients; kinds 1,2: the moment)"""
+    zi, fl = core.fparse(hl.split(" ", 1)[1])
+    kind = zi[1]; head = fl[:10]; par = list(fl[10:])
+    if kind == 0: par = [lam * x for x in par]
+    else: par = par[:3] + [lam * x for x in par[3:6]] + par[6:]
+    return core.fcase("c08", zi, head + par)
+
+def judge_integ(ck, ic, mo, ho, h=None):
+    st = dict(cases=len(ic), bitwise=0, rounding=0, refined=0, nontrivial=0, by_depth={}, tie_mismatches=0, homogeneity_checked=0)
+    mism = []
     for (ml, hl, what), m, hres in zip(ic, mo, ho):
         mz, mf = core.fparse(m); hz, hf = hres
         st["by_depth"][str(what.get("depth"))] = st["by_depth"].get(str(what.get("depth")), 0) + 1
@@ -480,10 +489,33 @@ def judge_integ(ck, ic, mo, ho):
                 s = max(abs(x) for x in mf + hf)
                 if all(core.close(a, b, rel=1e-9, scale=s) for a, b in zip(mf, hf)): st["rounding"] += 1
                 else: bad = "value: model %r implementation %r" % (mf, hf)
-        if bad:
-            ck.violation("integrator: model and Integrator::integrate differ (kind %s order %s depth %s)" % (what.get("kind"), what.get("order"), what.get("depth")),
-                         "the integrator model (Geom/AdaptInt.v, about which triangle_integration_linear / adaptive_homogeneous are proved) no longer matches Integrator::integrate: %s; case `%s`" % (bad, hl[:160]),
-                         dict(kind="integrator", model_case=ml, harness_case=hl, what=what, replay_cmd="./check C08 --replay <this file>"))
+        if bad: mism.append((ml, hl, what, bad))
+    st["tie_mismatches"] = len(mism)
+    # the property's own relation at the level of the integrator, on the real template: integrate(4 f) = 4 integrate(f)
+    # bitwise with the same number of refinement calls (adaptive_homogeneous / adaptive_same_tree; 4 is a power of two)
+    found = False
+    if h is not None:
+        sel = [c for c in ic if not c[2].get("corpus")]
+        pri = [(ml, hl, w) for (ml, hl, w, _) in mism if not w.get("corpus")]
+        sel = (pri + sel)[:len(pri) + 150]
+        hs = h.run([c[1] for c in sel] + [scaled_integ_line(c[1], 4.0) for c in sel]); n = len(sel)
+        for k, (ml, hl, what) in enumerate(sel):
+            (z1, f1), (z2, f2) = hs[k], hs[n + k]
+            if z1 is None or z2 is None or z1[0] != 0 or z2[0] != 0: continue
+            st["homogeneity_checked"] += 1
+            if z1[1] != z2[1] or any(not (4.0 * a == b or (a != a and b != b)) for a, b in zip(f1, f2)):
+                found = True
+                ck.violation("integrator: integrate(4 f) differs from 4 integrate(f)",
+                             "Integrator::integrate is not homogeneous: integrand scaled by 4 gives %r with %d refinement calls, unscaled %r with %d calls (kind %s order %s depth %s tol %s); case `%s`"
+                             % (f2, z2[1], f1, z1[1], what.get("kind"), what.get("order"), what.get("depth"), what.get("tol"), hl[:200]),
+                             dict(kind="integrator", model_case=ml, harness_case=hl, what=what, replay_cmd="./check C08 --replay <this file>"))
+                break
+    if mism:
+        ml, hl, what, bad = mism[0]
+        ck.violation("integrator: model and Integrator::integrate differ",
+                     "the integrator model (Geom/AdaptInt.v, about which triangle_integration_linear / adaptive_homogeneous are proved) no longer matches Integrator::integrate on %d of %d cases; first: %s (kind %s order %s depth %s); case `%s`"
+                     % (len(mism), len(ic), bad, what.get("kind"), what.get("order"), what.get("depth"), hl[:160]),
+                     dict(kind="integrator", model_case=ml, harness_case=hl, what=what, replay_cmd="./check C08 --replay <this file>"), found_input=False)
     return st
 
 def judge_struct(ck, h, structs, m, mid):
@@ -505,5 +537,5 @@ def judge_struct(ck, h, structs, m, mid):
             mis += 1
             ck.violation("structure: %s" % what.split(" named")[0],
                          "zero/equality pattern of %s differs from the one predicted by the loop/buffer model (Geom/Sources.v) on the geometry as loaded: %s" % (what, bad),
-                         dict(kind="structure", model_case=ml, harness_case=hl, what=what, model=m, mid=mid, replay_cmd="./check C08 --replay <this file>"))
+                         dict(kind="structure", model_case=ml, harness_case=hl, what=what, model=m, mid=mid, replay_cmd="./check C08 --replay <this file>"), found_input=False)
     return len(structs), mis
